@@ -462,6 +462,28 @@ Proof.
     repeat split; auto.
 Qed.
 
+Lemma rule_code_pair_tok_spec c st mk_ silent : cache_ok st ->
+  (c = true -> silent = false -> condT (i_level st + 1) = true) ->
+  gspec c (ipost st) (rule_code_pair_tok TK st mk_ silent).
+Proof.
+  intros Hc Hct. unfold rule_code_pair_tok.
+  assert (Wn : forall st', iframe st st' -> gspec c (ipost st) (ret (st', None))).
+  { intros st' F. apply rpost_ipost; [exact Hc|]. split; [exact F|exact I]. }
+  apply gspec_bind; [auto with bn|]. intros rest Hrest. destruct rest as [|ch t]; [exact I|].
+  destruct (negb (ch =? mk_)) eqn:Em; [apply Wn, iframe_refl|]. assert (ch = mk_) by lia. subst ch.
+  destruct (match rev (trailing_text_get st) with x :: _ => x =? mk_ | [] => false end); [apply Wn, iframe_refl|].
+  destruct (get_bt st mk_) as [scanned maxv]. destruct (_ && _); [apply Wn, iframe_refl|].
+  apply gspec_bind; [auto with bn|]. intros [o mv] Hs. cbn [fst snd]. destruct o as [[ms me]|]; [|apply Wn; frame].
+  apply code_scan_ge in Hs. pose proof (count_run_pos mk_ t) as Hp.
+  destruct silent.
+  { apply rpost_ipost; [exact Hc|]. split; cbn [fst snd]; [frame|lia]. }
+  apply gspec_bind; [auto with bn|]. intros raw _. cbv zeta. apply gspec_bind; [auto with bn|]. intros m _.
+  match goal with |- gspec _ _ (bind (TK ?inner) _) => apply (gspec_bind_g _ cache_ok); [
+    eapply gspec_weaken; [| |apply (T_ok inner)]; [cbn [i_level set_bt iset_bt]; auto|auto|exact Hc] |] end.
+  intros inner' _ Hci. cbn [i_pos]. destruct (i_pos inner' <=? me) eqn:E; [|exact I].
+  split; cbn [fst snd i_pos i_src i_max i_level i_cache set_bt iset_bt]; [|lia]. repeat split; auto.
+Qed.
+
 (* condition under which a rule may run at level lv: skip_token at lv, and, when not silent, tokenize at lv + 1 *)
 Definition rcond (c silent : bool) (lv : N) : Prop :=
   (c = true -> condS lv = true) /\ (c = true -> silent = false -> condT (lv + 1) = true).
@@ -476,7 +498,8 @@ Proof.
   { split; cbn [fst snd]; [|reflexivity]. repeat split; auto. }
   repeat match goal with |- gspec _ _ (if ?b then _ else _) => destruct b end;
     try solve [apply W; auto using rule_text_spec, rule_newline_spec, rule_escape_spec, rule_code_pair_spec, rule_emph_spec,
-           rule_autolink_spec, rule_entity_spec, rule_html_inline_spec, rule_custom_inline_spec]; try exact Hnone.
+           rule_autolink_spec, rule_entity_spec, rule_html_inline_spec, rule_custom_inline_spec]; try exact Hnone;
+    try solve [apply rule_code_pair_tok_spec; assumption].
   - apply gspec_bind; [auto with bn|]. intros rest _. destruct rest as [|ch t]; [exact I|].
     destruct (ch =? 91); [apply rule_link_spec; assumption|exact Hnone].
   - apply gspec_bind; [auto with bn|]. intros rest _.
